@@ -202,6 +202,9 @@ func (c *Ctx) declCoins() {
 }
 
 func (c *Ctx) sortOf1(t types.Type) string {
+	if n, ok := t.(*types.Named); ok && n.Origin() != nil && namedPath(n.Origin()) == "cosmossdk.io/collections.Pair" && n.TypeArgs().Len() == 2 {
+		return c.pairSort(c.sortOf(n.TypeArgs().At(0)), c.sortOf(n.TypeArgs().At(1)))
+	}
 	if np := namedPath(t); np != "" {
 		if s, ok := specialSorts[np]; ok {
 			if s == "Coins" {
